@@ -93,7 +93,7 @@ Section Handler.
               let r := fb / fc in
               (sdiv * (L L2 * xm * qv * (qv - r) - (b - a) * (r - one O)),
                (qv - one O) * (r - one O) * (sdiv - one O)) in
-          let '(p, q) := if q >? zero O then (neg O p, q) else (p, neg O q) in
+          let '(p, q) := (abs O p, if p >? zero O then neg O q else q) in
           if (L L2 * p) <? fmin O (L L3 * xm * q - abs O (tol1 * q)) (abs O (e * q))
           then (p / q, d)
           else (xm, xm)
@@ -151,8 +151,23 @@ Section Handler.
     | a :: r, S k => a :: upd r k f
     end.
 
+  (* on a terminal event: requested times not beyond the event are still reported *)
+  Fixpoint scan_terminal (fwd : bool) (tol xold tev : F) (interp : F -> vec) (te : list F) (i : nat)
+           (t : list F) (ys : list vec) : nat * list F * list vec :=
+    match te with
+    | [] => (i, t, ys)
+    | v :: r =>
+        let inside := if fwd then v <=? tev else v >=? tev in
+        if inside then
+          let take := if fwd then v >=? xold - tol else v <=? xold + tol in
+          if take then scan_terminal fwd tol xold tev interp r (S i) (v :: t) (interp v :: ys)
+          else scan_terminal fwd tol xold tev interp r (S i) t ys
+        else (i, t, ys)
+    end.
+
   (* process sorted events; returns the state and whether a terminal event fired *)
-  Fixpoint process_events (C : hconfig) (evs : list (F * nat * vec)) (s : hstate) : hstate * bool :=
+  Fixpoint process_events (C : hconfig) (fwd : bool) (xold : F) (interp : F -> vec)
+           (evs : list (F * nat * vec)) (s : hstate) : hstate * bool :=
     match evs with
     | [] => (s, false)
     | (te, i, ye) :: rest =>
@@ -166,10 +181,16 @@ Section Handler.
                     | None => false
                     end in
         if term then
-          (mkHS (hs_next s1) (te :: hs_t s1) (ye :: hs_y s1) (hs_tev s1) (hs_yev s1)
+          let '(nx, t1, y1) :=
+            match hc_t_eval C with
+            | Some tev => scan_terminal fwd (L L1em12) xold te interp (skipn (hs_next s1) tev)
+                                        (hs_next s1) (hs_t s1) (hs_y s1)
+            | None => (hs_next s1, hs_t s1, hs_y s1)
+            end in
+          (mkHS nx (te :: t1) (ye :: y1) (hs_tev s1) (hs_yev s1)
                 (hs_segs s1) (hs_yold s1) (hs_prev s1) (hs_hits s1) (hs_first_done s1)
                 (hs_evlog s1) (hs_brent_unconverged s1), true)
-        else process_events C rest s1
+        else process_events C fwd xold interp rest s1
     end.
 
   (* Mode 1 scans *)
@@ -242,7 +263,10 @@ Section Handler.
             let sorted := sort_ev (if fwd then (fun a b => a <? b) else (fun a b => a >? b)) det in
             let s := mkHS (hs_next s) (hs_t s) (hs_y s) (hs_tev s) (hs_yev s) (hs_segs s) (hs_yold s)
                           (hs_prev s) (hs_hits s) (hs_first_done s) log unconv in
-            let '(s, term) := process_events C sorted s in
+            let interp0 xi := match sg with
+                              | Some (cont, xo, h) => hc_interp C cont xo h xi n
+                              | None => repeat (zero O) n end in
+            let '(s, term) := process_events C fwd xold interp0 sorted s in
             (mkHS (hs_next s) (hs_t s) (hs_y s) (hs_tev s) (hs_yev s) (hs_segs s) (hs_yold s)
                   gcurr (hs_hits s) (hs_first_done s) (hs_evlog s) (hs_brent_unconverged s), term)
         end
